@@ -29,23 +29,32 @@ import (
 type c29oCase struct {
 	SeedA vstat.Bytes `json:"seed_a"`
 	SeedB vstat.Bytes `json:"seed_b"`
+	// WarmA / WarmB (optional): before the tested link each controller already tracks a link of another local
+	// identity (the pubsub controller is not bound to one peer) with another remote
+	WarmA vstat.Bytes `json:"warm_a,omitempty"`
+	WarmB vstat.Bytes `json:"warm_b,omitempty"`
 }
 
 func genC29o(t *rapid.T) c29oCase {
 	return c29oCase{
 		SeedA: rapid.SliceOfN(rapid.Byte(), 1, 3).Draw(t, "a"),
 		SeedB: rapid.SliceOfN(rapid.Byte(), 1, 3).Draw(t, "b"),
+		WarmA: rapid.SliceOfN(rapid.Byte(), 0, 2).Draw(t, "wa"),
+		WarmB: rapid.SliceOfN(rapid.Byte(), 0, 2).Draw(t, "wb"),
 	}
 }
 
 // fakePubSub records AddPeerStream calls.
 type fakePubSub struct {
 	mu    sync.Mutex
-	added []bool // initiator flags
+	added []bool // initiator flags of the streams of the tested link (link id 77)
 }
 
 func (f *fakePubSub) Execute(ctx context.Context) error { <-ctx.Done(); return ctx.Err() }
 func (f *fakePubSub) AddPeerStream(tpl pubsub.PeerLinkTuple, initiator bool, mstrm link.MountedStream) {
+	if tpl.LinkID != 77 {
+		return
+	}
 	f.mu.Lock()
 	f.added = append(f.added, initiator)
 	f.mu.Unlock()
@@ -63,7 +72,7 @@ type side struct {
 	cancel context.CancelFunc
 }
 
-func newSide(local, remote peer.ID) (*side, error) {
+func newSide(local, remote peer.ID, warm ...peer.ID) (*side, error) {
 	s := &side{ps: &fakePubSub{}}
 	s.ctrl = pubsub_controller.NewController(quietLog, nil, controller.NewInfo("verif/pubsub", semver.MustParse("0.0.1"), "x"), "", protocol.ID("verif/pubsub"),
 		func(ctx context.Context, le *logrus.Entry, p peer.Peer, handler pubsub.PubSubHandler) (pubsub.PubSub, error) {
@@ -76,6 +85,22 @@ func newSide(local, remote peer.ID) (*side, error) {
 	s.ml.OpenFn = func(ctx context.Context, pid protocol.ID) (link.MountedStream, error) {
 		a, _ := fakes.NewStreamPair()
 		return &fakes.MountedStream{Strm: a, Proto: pid, Peer: remote, Lnk: s.ml}, nil
+	}
+	if len(warm) == 2 && warm[0] != "" && warm[0] != local && warm[1] != warm[0] {
+		// an earlier link of another local identity
+		wl, wr := warm[0], warm[1]
+		wml := &fakes.MountedLink{UUID: 76, Local: wl, Remote: wr}
+		wml.OpenFn = func(ctx context.Context, pid protocol.ID) (link.MountedStream, error) {
+			a, _ := fakes.NewStreamPair()
+			return &fakes.MountedStream{Strm: a, Proto: pid, Peer: wr, Lnk: wml}, nil
+		}
+		winst := fakes.NewInstance(link.NewEstablishLinkWithPeer("", wr))
+		if _, err := s.ctrl.HandleDirective(ctx, winst); err == nil {
+			if refs := winst.LiveRefs(); len(refs) == 1 && refs[0].Handler != nil {
+				refs[0].Handler.HandleValueAdded(winst, directive.NewAttachedValue(1, link.MountedLink(wml)))
+				time.Sleep(5 * time.Millisecond)
+			}
+		}
 	}
 	inst := fakes.NewInstance(link.NewEstablishLinkWithPeer("", remote))
 	if _, err := s.ctrl.HandleDirective(ctx, inst); err != nil {
@@ -100,13 +125,22 @@ func checkC29o(c c29oCase) (o vstat.Outcome) {
 		return
 	}
 	o.NonTrivial = true
-	sa, err := newSide(ida, idb)
+	var wa, wb, wr peer.ID
+	if len(c.WarmA) > 0 {
+		wa, _ = peer.IDFromPrivateKey(gen.KeyFromSeed(append([]byte("warm-a"), c.WarmA...)))
+		o.Classes = append(o.Classes, "controller-already-tracks-another-identity")
+	}
+	if len(c.WarmB) > 0 {
+		wb, _ = peer.IDFromPrivateKey(gen.KeyFromSeed(append([]byte("warm-b"), c.WarmB...)))
+	}
+	wr, _ = peer.IDFromPrivateKey(gen.KeyFromSeed([]byte("warm-remote")))
+	sa, err := newSide(ida, idb, wa, wr)
 	if err != nil {
 		o.V = vstat.Viol("controller-setup", "%v", err)
 		return
 	}
 	defer sa.cancel()
-	sb, err := newSide(idb, ida)
+	sb, err := newSide(idb, ida, wb, wr)
 	if err != nil {
 		o.V = vstat.Viol("controller-setup", "%v", err)
 		return
